@@ -210,7 +210,14 @@ class Verifier(Exec):
                     if h.type is not None:
                         ts = h.type.elts if isinstance(h.type, ast.Tuple) else [h.type]
                         names = [ast.unparse(t) for t in ts]
-                    if exc_matches(e.x[0], names):
+                    mt = exc_matches(e.x[0], names)
+                    if mt is None:
+                        # unknown class: both "caught here" and "not caught"
+                        s2 = s.copy()
+                        s2.env["$exc"] = e
+                        res.extend(self.block(h.body, s2))
+                        continue
+                    if mt:
                         s.env["$exc"] = e
                         res.extend(self.block(h.body, s))
                         handled = True
@@ -463,6 +470,7 @@ class Verifier(Exec):
     def verify_function(self, con, cover_only=False):
         """Generate all obligations of one function under contract."""
         self.cur = con
+        self.compare_error_paths = 0
         fdef = self.sources[con.name]
         self.loop_index = {}
         k = 0
@@ -542,6 +550,19 @@ class Verifier(Exec):
         elif o[0] == "raise":
             ecls = o[1].x[0]
             s.env = dict(pre.env)
+            if ecls == "CompareError" and self.mode == "faulty" and ecls not in con.raises:
+                # C14: a failing key comparison must reach the caller and leave
+                # every object as it was (or as the contract says under
+                # ghost['on_compare_error'])
+                for nm, txt in con.ghost.get("on_compare_error", {}).items():
+                    self.oblige(s, "%s:raise[CompareError]:%s" % (con.name, nm),
+                                self.spec(txt, ctx, state=s))
+                self.frame_obligations(con, pre, s, "raise[CompareError]",
+                                       modifies=con.ghost.get("on_compare_error_modifies", []))
+                self.compare_error_paths += 1
+                return
+            if ecls not in con.raises and "*" in con.raises:
+                ecls = "*"
             if ecls not in con.raises:
                 self.oblige(s, "%s:raises-only" % con.name, z3.BoolVal(False),
                             "raises %s (allowed: %s) on path %s" %
@@ -575,6 +596,8 @@ class Verifier(Exec):
 
     def frame_obligations(self, con, pre, s, tag, modifies=None):
         """Everything not listed in `modifies` and not fresh is unchanged."""
+        if con.ghost.get("no_frame"):
+            return
         mods = con.modifies if modifies is None else modifies
         tmp = Contract("tmp", modifies=mods)
         targets = self.mod_targets(pre, tmp, dict(pre.env))
